@@ -790,4 +790,604 @@ theorem featsId_addFeature {b : View} {o : Oracle} {l l' : Layer} {f : Feature} 
       · cases h; exact featsId_same (checkReferrers_same b o l f _) hl
       · cases h; exact featsId_commit (featsId_same (checkReferrers_same b o l f _) hl)
 
+/-! ## Refinement of the per-feature map, operation by operation -/
+
+open B6.Spec.World in
+/-- every tag read (and with it existence) of the layered world equals the per-feature map -/
+def LRefines (b : View) (l : Layer) (w : B6.Spec.World.World) : Prop :=
+  ∀ id k, tagOf (l.view b (l.loc b)) id k = B6.Spec.World.tagOf w id k
+
+/-- tag reads of ids outside `ids` are the same in both layers -/
+def Frame (b : View) (l l' : Layer) (ids : List Id) : Prop :=
+  ∀ id, id ∉ ids → ∀ k, tagOf (l'.view b (l'.loc b)) id k = tagOf (l.view b (l.loc b)) id k
+
+theorem Frame.refl (b : View) (l : Layer) (ids : List Id) : Frame b l l ids := fun _ _ _ => rfl
+
+theorem Frame.trans {b : View} {l l' l'' : Layer} {ids ids' : List Id}
+    (h1 : Frame b l l' ids) (h2 : Frame b l' l'' ids') : Frame b l l'' (ids ++ ids') := by
+  intro id hid k
+  simp only [List.mem_append, not_or] at hid
+  rw [h2 id hid.2 k, h1 id hid.1 k]
+
+theorem Frame.mono {b : View} {l l' : Layer} {ids ids' : List Id} (h : Frame b l l' ids)
+    (hsub : ∀ x, x ∈ ids → x ∈ ids') : Frame b l l' ids' :=
+  fun id hid k => h id (fun hx => hid (hsub id hx)) k
+
+theorem refines_addTag {b : View} {l l' : Layer} {id : Id} {tag : Tag} {w : B6.Spec.World.World}
+    (hb : b.IdsOK) (hl : l.FeatsId) (hr : LRefines b l w) (h : l.addTag b id tag = .ok l') :
+    LRefines b l' (B6.Spec.World.addTag w id tag) := by
+  intro id' k
+  rw [tagOf_addTag_ok hb hl h (l.loc b) (l'.loc b), B6.Spec.World.tagOf_addTag, hr id k, hr id' k]
+
+theorem frame_addTag {b : View} {l l' : Layer} {id : Id} {tag : Tag}
+    (hb : b.IdsOK) (hl : l.FeatsId) (h : l.addTag b id tag = .ok l') : Frame b l l' [id] := by
+  intro id' hid k
+  rw [tagOf_addTag_ok hb hl h (l.loc b) (l'.loc b)]
+  simp only [List.mem_singleton] at hid
+  simp [hid]
+
+theorem refines_removeTag {b : View} {l l' : Layer} {id : Id} {key : Key} {w : B6.Spec.World.World}
+    (hb : b.IdsOK) (hl : l.FeatsId) (hr : LRefines b l w) (h : l.removeTag b id key = .ok l') :
+    LRefines b l' (B6.Spec.World.removeTag w id key) := by
+  intro id' k
+  rw [tagOf_removeTag_ok hb hl h (l.loc b) (l'.loc b), B6.Spec.World.tagOf_removeTag, hr id k, hr id' k]
+
+theorem frame_removeTag {b : View} {l l' : Layer} {id : Id} {key : Key}
+    (hb : b.IdsOK) (hl : l.FeatsId) (h : l.removeTag b id key = .ok l') : Frame b l l' [id] := by
+  intro id' hid k
+  rw [tagOf_removeTag_ok hb hl h (l.loc b) (l'.loc b)]
+  simp only [List.mem_singleton] at hid
+  simp [hid]
+
+theorem tagOf_same {b : View} {l l' : Layer} (h : l.Same l') (id : Id) (k : Key) :
+    tagOf (l'.view b (l'.loc b)) id k = tagOf (l.view b (l.loc b)) id k := by
+  simp only [tagOf, find_view, h.find]
+
+theorem refines_addFeature {b : View} {o : Oracle} {l l' : Layer} {f : Feature} {w : B6.Spec.World.World}
+    (hb : b.IdsOK) (hl : l.FeatsId) (hr : LRefines b l w) (h : l.addFeature b o f = (l', none)) :
+    LRefines b l' (B6.Spec.World.addFeature w f.id f.tags) := by
+  intro id' k
+  rw [tagOf_addFeature_ok hb hl h (l.loc b) (l'.loc b), B6.Spec.World.tagOf_addFeature, hr id' k]
+
+theorem refines_addFeature_err {b : View} {o : Oracle} {l l' : Layer} {f : Feature} {e : Err}
+    {w : B6.Spec.World.World} (hr : LRefines b l w) (h : l.addFeature b o f = (l', some e)) :
+    LRefines b l' w := by
+  intro id' k
+  rw [tagOf_same (addFeature_err_same h), hr id' k]
+
+theorem frame_addFeature {b : View} {o : Oracle} {l l' : Layer} {f : Feature} {r : Option Err}
+    (hb : b.IdsOK) (hl : l.FeatsId) (h : l.addFeature b o f = (l', r)) : Frame b l l' [f.id] := by
+  intro id' hid k
+  simp only [List.mem_singleton] at hid
+  cases r with
+  | none => rw [tagOf_addFeature_ok hb hl h (l.loc b) (l'.loc b)]; simp [hid]
+  | some e => exact tagOf_same (addFeature_err_same h) id' k
+
+/-! ### change lists -/
+
+theorem applyFeatures_spec {b : View} {o : Oracle} (hb : b.IdsOK) (fs : List Feature) :
+    ∀ (l l' : Layer) (r : Option Err), l.FeatsId → applyFeatures b o l fs = (l', r) →
+      l'.FeatsId ∧ Frame b l l' (fs.map (·.id)) ∧
+      (r = none → ∀ w, LRefines b l w → LRefines b l' (fs.foldl (fun w f => B6.Spec.World.addFeature w f.id f.tags) w)) := by
+  induction fs with
+  | nil =>
+    intro l l' r hl h
+    simp only [applyFeatures, Prod.mk.injEq] at h
+    obtain ⟨rfl, rfl⟩ := h
+    exact ⟨hl, Frame.refl _ _ _, fun _ w hw => hw⟩
+  | cons f rest ih =>
+    intro l l' r hl h
+    simp only [applyFeatures] at h
+    cases hstep : l.addFeature b o f with
+    | mk l1 r1 =>
+      rw [hstep] at h
+      have hl1 := featsId_addFeature hl hstep
+      have hf1 := frame_addFeature hb hl hstep
+      cases r1 with
+      | none =>
+        simp only at h
+        obtain ⟨hl', hfr, href⟩ := ih l1 l' r hl1 h
+        refine ⟨hl', ?_, fun hr w hw => ?_⟩
+        · exact (hf1.trans hfr).mono (by simp)
+        · simp only [List.foldl_cons]
+          exact href hr _ (refines_addFeature hb hl hw hstep)
+      | some e =>
+        simp only [Prod.mk.injEq] at h
+        obtain ⟨rfl, rfl⟩ := h
+        exact ⟨hl1, hf1.mono (by simp), fun hr => by cases hr⟩
+
+theorem applyAddTags_spec {b : View} (hb : b.IdsOK) (ts : List (Id × Tag)) :
+    ∀ (l l' : Layer) (r : Option Err), l.FeatsId → applyAddTags b l ts = (l', r) →
+      l'.FeatsId ∧ Frame b l l' (ts.map (·.1)) ∧
+      (r = none → ∀ w, LRefines b l w → LRefines b l' (ts.foldl (fun w e => B6.Spec.World.addTag w e.1 e.2) w)) := by
+  induction ts with
+  | nil =>
+    intro l l' r hl h
+    simp only [applyAddTags, Prod.mk.injEq] at h
+    obtain ⟨rfl, rfl⟩ := h
+    exact ⟨hl, Frame.refl _ _ _, fun _ w hw => hw⟩
+  | cons e rest ih =>
+    intro l l' r hl h
+    obtain ⟨id, t⟩ := e
+    simp only [applyAddTags] at h
+    cases hstep : l.addTag b id t with
+    | ok l1 =>
+      rw [hstep] at h
+      simp only at h
+      have hl1 := featsId_addTag hl hstep
+      have hf1 := frame_addTag hb hl hstep
+      obtain ⟨hl', hfr, href⟩ := ih l1 l' r hl1 h
+      refine ⟨hl', ?_, fun hr w hw => ?_⟩
+      · exact (hf1.trans hfr).mono (by simp)
+      · simp only [List.foldl_cons]
+        exact href hr _ (refines_addTag hb hl hw hstep)
+    | error e =>
+      rw [hstep] at h
+      simp only [Prod.mk.injEq] at h
+      obtain ⟨rfl, rfl⟩ := h
+      exact ⟨hl, Frame.refl _ _ _, fun hr => by cases hr⟩
+
+theorem applyRemoveTags_spec {b : View} (hb : b.IdsOK) (ts : List (Id × Key)) :
+    ∀ (l l' : Layer) (r : Option Err), l.FeatsId → applyRemoveTags b l ts = (l', r) →
+      l'.FeatsId ∧ Frame b l l' (ts.map (·.1)) ∧
+      (r = none → ∀ w, LRefines b l w → LRefines b l' (ts.foldl (fun w e => B6.Spec.World.removeTag w e.1 e.2) w)) := by
+  induction ts with
+  | nil =>
+    intro l l' r hl h
+    simp only [applyRemoveTags, Prod.mk.injEq] at h
+    obtain ⟨rfl, rfl⟩ := h
+    exact ⟨hl, Frame.refl _ _ _, fun _ w hw => hw⟩
+  | cons e rest ih =>
+    intro l l' r hl h
+    obtain ⟨id, key⟩ := e
+    simp only [applyRemoveTags] at h
+    cases hstep : l.removeTag b id key with
+    | ok l1 =>
+      rw [hstep] at h
+      simp only at h
+      have hl1 := featsId_removeTag hl hstep
+      have hf1 := frame_removeTag hb hl hstep
+      obtain ⟨hl', hfr, href⟩ := ih l1 l' r hl1 h
+      refine ⟨hl', ?_, fun hr w hw => ?_⟩
+      · exact (hf1.trans hfr).mono (by simp)
+      · simp only [List.foldl_cons]
+        exact href hr _ (refines_removeTag hb hl hw hstep)
+    | error e =>
+      rw [hstep] at h
+      simp only [Prod.mk.injEq] at h
+      obtain ⟨rfl, rfl⟩ := h
+      exact ⟨hl, Frame.refl _ _ _, fun hr => by cases hr⟩
+
+theorem change_spec {b : View} {o : Oracle} (hb : b.IdsOK) (c : Change) (l l' : Layer) (r : Option Err)
+    (hl : l.FeatsId) (h : c.apply b o l = (l', r)) :
+    l'.FeatsId ∧ Frame b l l' (B6.Spec.World.changeIds c) ∧
+    (r = none → ∀ w, LRefines b l w → LRefines b l' (B6.Spec.World.applyChange w c)) := by
+  cases c with
+  | addFeatures fs => exact applyFeatures_spec hb fs l l' r hl h
+  | addTags ts => exact applyAddTags_spec hb ts l l' r hl h
+  | removeTags ts => exact applyRemoveTags_spec hb ts l l' r hl h
+
+theorem applyAll_spec {b : View} {o : Oracle} (hb : b.IdsOK) (cs : List Change) :
+    ∀ (l l' : Layer) (r : Option Err), l.FeatsId → applyAll b o l cs = (l', r) →
+      l'.FeatsId ∧ Frame b l l' (cs.flatMap B6.Spec.World.changeIds) ∧
+      (r = none → ∀ w, LRefines b l w → LRefines b l' (cs.foldl B6.Spec.World.applyChange w)) := by
+  induction cs with
+  | nil =>
+    intro l l' r hl h
+    simp only [applyAll, Prod.mk.injEq] at h
+    obtain ⟨rfl, rfl⟩ := h
+    exact ⟨hl, Frame.refl _ _ _, fun _ w hw => hw⟩
+  | cons c rest ih =>
+    intro l l' r hl h
+    simp only [applyAll] at h
+    cases hstep : c.apply b o l with
+    | mk l1 r1 =>
+      rw [hstep] at h
+      obtain ⟨hl1, hf1, href1⟩ := change_spec hb c l l1 r1 hl hstep
+      cases r1 with
+      | none =>
+        simp only at h
+        obtain ⟨hl', hfr, href⟩ := ih l1 l' r hl1 h
+        refine ⟨hl', ?_, fun hr w hw => ?_⟩
+        · exact (hf1.trans hfr).mono (by simp)
+        · simp only [List.foldl_cons]
+          exact href hr _ (href1 rfl w hw)
+      | some e =>
+        simp only [Prod.mk.injEq] at h
+        obtain ⟨rfl, rfl⟩ := h
+        exact ⟨hl1, hf1.mono (fun x hx => by simp; exact Or.inl hx), fun hr => by cases hr⟩
+
+theorem addFeature_ne_partial (b : View) (o : Oracle) (l l' : Layer) (f : Feature) :
+    l.addFeature b o f ≠ (l', some .partiallyApplied) := by
+  rw [addFeature_eq]
+  intro h
+  split at h
+  · cases h
+  · split at h
+    · cases h
+    · split at h <;> cases h
+
+theorem addTag_ne_partial {b : View} {l : Layer} {id : Id} {t : Tag} :
+    l.addTag b id t ≠ .error .partiallyApplied := by
+  unfold Layer.addTag
+  intro h
+  split at h
+  · cases h
+  · split at h
+    · cases h
+    · split at h <;> cases h
+
+theorem removeTag_ne_partial {b : View} {l : Layer} {id : Id} {k : Key} :
+    l.removeTag b id k ≠ .error .partiallyApplied := by
+  unfold Layer.removeTag
+  intro h
+  split at h
+  · cases h
+  · split at h
+    · cases h
+    · split at h
+      · cases h
+      · split at h <;> cases h
+
+theorem applyFeatures_ne_partial (b : View) (o : Oracle) (fs : List Feature) :
+    ∀ (l l' : Layer), applyFeatures b o l fs ≠ (l', some .partiallyApplied) := by
+  induction fs with
+  | nil => intro l l' h; simp [applyFeatures] at h
+  | cons f rest ih =>
+    intro l l' h
+    simp only [applyFeatures] at h
+    cases hstep : l.addFeature b o f with
+    | mk l1 r1 =>
+      rw [hstep] at h
+      cases r1 with
+      | none => exact ih l1 l' h
+      | some e =>
+        simp only [Prod.mk.injEq, Option.some.injEq] at h
+        obtain ⟨rfl, rfl⟩ := h
+        exact addFeature_ne_partial b o l l1 f hstep
+
+theorem applyAddTags_ne_partial (b : View) (ts : List (Id × Tag)) :
+    ∀ (l l' : Layer), applyAddTags b l ts ≠ (l', some .partiallyApplied) := by
+  induction ts with
+  | nil => intro l l' h; simp [applyAddTags] at h
+  | cons e rest ih =>
+    intro l l' h
+    obtain ⟨id, t⟩ := e
+    simp only [applyAddTags] at h
+    cases hstep : l.addTag b id t with
+    | ok l1 => rw [hstep] at h; exact ih l1 l' h
+    | error e =>
+      rw [hstep] at h
+      simp only [Prod.mk.injEq, Option.some.injEq] at h
+      obtain ⟨_, rfl⟩ := h
+      exact addTag_ne_partial hstep
+
+theorem applyRemoveTags_ne_partial (b : View) (ts : List (Id × Key)) :
+    ∀ (l l' : Layer), applyRemoveTags b l ts ≠ (l', some .partiallyApplied) := by
+  induction ts with
+  | nil => intro l l' h; simp [applyRemoveTags] at h
+  | cons e rest ih =>
+    intro l l' h
+    obtain ⟨id, k⟩ := e
+    simp only [applyRemoveTags] at h
+    cases hstep : l.removeTag b id k with
+    | ok l1 => rw [hstep] at h; exact ih l1 l' h
+    | error e =>
+      rw [hstep] at h
+      simp only [Prod.mk.injEq, Option.some.injEq] at h
+      obtain ⟨_, rfl⟩ := h
+      exact removeTag_ne_partial hstep
+
+theorem applyAll_ne_partial (b : View) (o : Oracle) (cs : List Change) :
+    ∀ (l l' : Layer), applyAll b o l cs ≠ (l', some .partiallyApplied) := by
+  induction cs with
+  | nil => intro l l' h; simp [applyAll] at h
+  | cons c rest ih =>
+    intro l l' h
+    simp only [applyAll] at h
+    cases hstep : c.apply b o l with
+    | mk l1 r1 =>
+      rw [hstep] at h
+      cases r1 with
+      | none => exact ih l1 l' h
+      | some e =>
+        simp only [Prod.mk.injEq, Option.some.injEq] at h
+        obtain ⟨rfl, rfl⟩ := h
+        cases c with
+        | addFeatures fs => exact applyFeatures_ne_partial b o fs l l1 hstep
+        | addTags ts => exact applyAddTags_ne_partial b ts l l1 hstep
+        | removeTags ts => exact applyRemoveTags_ne_partial b ts l l1 hstep
+
+theorem mergedApply_cases (b : View) (o : Oracle) (l : Layer) (cs : List Change) :
+    (∃ e, e ≠ Err.partiallyApplied ∧ mergedApply b o l cs = (l, some e) ∧
+        (applyAll (l.view b (l.loc b)) o Layer.empty cs).2 = some e) ∨
+    (∃ l', mergedApply b o l cs = (l', none) ∧ applyAll b o l cs = (l', none)) ∨
+    (∃ l' e, mergedApply b o l cs = (l', some .partiallyApplied) ∧ applyAll b o l cs = (l', some e) ∧
+        (applyAll (l.view b (l.loc b)) o Layer.empty cs).2 = none) := by
+  cases hc : applyAll (l.view b (l.loc b)) o Layer.empty cs with
+  | mk lc rc =>
+    cases hr : applyAll b o l cs with
+    | mk l' r' =>
+      cases rc with
+      | some e =>
+        by_cases hp : e = Err.partiallyApplied
+        · subst hp
+          exact absurd hc (applyAll_ne_partial _ _ _ _ _)
+        · refine Or.inl ⟨e, hp, ?_, rfl⟩
+          simp [mergedApply, hc]
+      | none =>
+        cases r' with
+        | none =>
+          refine Or.inr (Or.inl ⟨l', ?_, rfl⟩)
+          simp [mergedApply, hc, hr]
+        | some e =>
+          refine Or.inr (Or.inr ⟨l', e, ?_, rfl, rfl⟩)
+          simp [mergedApply, hc, hr]
+
+/-! ## Sorted id lists, postings -/
+
+/-- strictly increasing (what the AVL posting lists are, C07) -/
+def Sorted (l : List Id) : Prop := l.Pairwise (· < ·)
+
+theorem mem_insertSorted (x y : Id) (l : List Id) : y ∈ insertSorted x l ↔ y = x ∨ y ∈ l := by
+  induction l with
+  | nil => simp [insertSorted]
+  | cons a r ih =>
+    simp only [insertSorted]
+    by_cases h1 : x < a
+    · simp [h1]
+    · by_cases h2 : x = a
+      · subst h2; simp
+      · simp only [h1, h2, ↓reduceIte, List.mem_cons, ih]
+        constructor
+        · rintro (h | h | h)
+          · exact Or.inr (Or.inl h)
+          · exact Or.inl h
+          · exact Or.inr (Or.inr h)
+        · rintro (h | h | h)
+          · exact Or.inr (Or.inl h)
+          · exact Or.inl h
+          · exact Or.inr (Or.inr h)
+
+theorem nat_lt_of_not {x a : Nat} (h1 : ¬ x < a) (h2 : ¬ x = a) : a < x := by omega
+theorem nat_lt_irrefl' {x y : Nat} (h1 : x < y) (h2 : y < x) : False := by omega
+theorem nat_lt_self {x : Nat} (h : x < x) : False := by omega
+
+theorem sorted_insertSorted (x : Id) (l : List Id) (h : Sorted l) : Sorted (insertSorted x l) := by
+  induction l with
+  | nil => simp [insertSorted, Sorted]
+  | cons a r ih =>
+    unfold Sorted at h ih ⊢
+    simp only [insertSorted]
+    by_cases h1 : x < a
+    · simp only [h1, ↓reduceIte]
+      refine List.pairwise_cons.2 ⟨fun y hy => ?_, h⟩
+      rcases List.mem_cons.1 hy with rfl | hy
+      · exact h1
+      · exact Nat.lt_trans h1 ((List.pairwise_cons.1 h).1 y hy)
+    · by_cases h2 : x = a
+      · simp [h2, h]
+      · simp only [h1, h2, ↓reduceIte]
+        refine List.pairwise_cons.2 ⟨fun y hy => ?_, ih (List.pairwise_cons.1 h).2⟩
+        rcases (mem_insertSorted x y r).1 hy with rfl | hy
+        · exact nat_lt_of_not h1 h2
+        · exact (List.pairwise_cons.1 h).1 y hy
+
+theorem sorted_filter (p : Id → Bool) (l : List Id) (h : Sorted l) : Sorted (l.filter p) :=
+  List.Pairwise.filter p h
+
+/-- a strictly increasing list is determined by its members -/
+theorem sorted_ext {l1 l2 : List Id} (h1 : Sorted l1) (h2 : Sorted l2) (h : ∀ x, x ∈ l1 ↔ x ∈ l2) : l1 = l2 := by
+  induction l1 generalizing l2 with
+  | nil =>
+    cases l2 with
+    | nil => rfl
+    | cons b r => exact absurd ((h b).2 List.mem_cons_self) (by simp)
+  | cons a r ih =>
+    cases l2 with
+    | nil => exact absurd ((h a).1 List.mem_cons_self) (by simp)
+    | cons b r2 =>
+      unfold Sorted at h1 h2
+      have ha := List.pairwise_cons.1 h1
+      have hb := List.pairwise_cons.1 h2
+      have hab : a = b := by
+        rcases List.mem_cons.1 ((h a).1 List.mem_cons_self) with e | hm
+        · exact e
+        · rcases List.mem_cons.1 ((h b).2 List.mem_cons_self) with e | hm2
+          · exact e.symm
+          · exact absurd (nat_lt_irrefl' (hb.1 a hm) (ha.1 b hm2)) id
+      subst hab
+      congr 1
+      apply ih ha.2 hb.2
+      intro x
+      constructor
+      · intro hx
+        rcases List.mem_cons.1 ((h x).1 (List.mem_cons_of_mem _ hx)) with e | hm
+        · have := ha.1 x hx; rw [e] at this; exact absurd (nat_lt_self this) id
+        · exact hm
+      · intro hx
+        rcases List.mem_cons.1 ((h x).2 (List.mem_cons_of_mem _ hx)) with e | hm
+        · have := hb.1 x hx; rw [e] at this; exact absurd (nat_lt_self this) id
+        · exact hm
+
+theorem postings_set (ix : List (Token × List Id)) (t : Token) (l : List Id) (t' : Token) :
+    postings (AMap.set ix t l) t' = if t' = t then l else postings ix t' := by
+  unfold postings
+  rw [AMap.get_set]
+  by_cases h : t' = t <;> simp [h]
+
+theorem postings_indexAdd (id : Id) (ts : List Token) :
+    ∀ (ix : List (Token × List Id)) (t : Token) (y : Id),
+      (y ∈ postings (indexAdd ix id ts) t ↔ (t ∈ ts ∧ y = id) ∨ y ∈ postings ix t) := by
+  induction ts with
+  | nil => intro ix t y; simp [indexAdd]
+  | cons a r ih =>
+    intro ix t y
+    simp only [indexAdd, List.foldl_cons] at ih ⊢
+    rw [ih, postings_set]
+    by_cases h : t = a
+    · subst h
+      simp only [↓reduceIte, mem_insertSorted, List.mem_cons, true_or, true_and]
+      constructor
+      · rintro (h | h | h)
+        · exact Or.inl h.2
+        · exact Or.inl h
+        · exact Or.inr h
+      · rintro (h | h)
+        · exact Or.inr (Or.inl h)
+        · exact Or.inr (Or.inr h)
+    · simp [h]
+
+theorem sorted_indexAdd (id : Id) (ts : List Token) :
+    ∀ (ix : List (Token × List Id)), (∀ t, Sorted (postings ix t)) → ∀ t, Sorted (postings (indexAdd ix id ts) t) := by
+  induction ts with
+  | nil => intro ix h t; simpa [indexAdd] using h t
+  | cons a r ih =>
+    intro ix h t
+    simp only [indexAdd, List.foldl_cons] at ih ⊢
+    apply ih
+    intro t'
+    rw [postings_set]
+    by_cases h' : t' = a
+    · simp only [h', ↓reduceIte]; exact sorted_insertSorted _ _ (h a)
+    · simp only [h', ↓reduceIte]; exact h t'
+
+theorem indexRemove_step_postings (ix : List (Token × List Id)) (id : Id) (a t : Token) :
+    postings (indexRemoveStep id ix a) t =
+    if t = a then (postings ix a).filter (fun y => decide (y ≠ id)) else postings ix t := by
+  unfold indexRemoveStep
+  cases h : AMap.get ix a with
+  | some l =>
+    simp only [postings_set]
+    by_cases ht : t = a
+    · simp [ht, postings, h]
+    · simp [ht]
+  | none =>
+    by_cases ht : t = a
+    · simp [ht, postings, h]
+    · simp [ht]
+
+theorem postings_indexRemove (id : Id) (ts : List Token) :
+    ∀ (ix : List (Token × List Id)) (t : Token) (y : Id),
+      (y ∈ postings (indexRemove ix id ts) t ↔ y ∈ postings ix t ∧ ¬ (t ∈ ts ∧ y = id)) := by
+  induction ts with
+  | nil => intro ix t y; simp [indexRemove]
+  | cons a r ih =>
+    intro ix t y
+    simp only [indexRemove, List.foldl_cons] at ih ⊢
+    rw [ih, indexRemove_step_postings]
+    by_cases h : t = a
+    · subst h
+      simp only [↓reduceIte, List.mem_filter, decide_eq_true_eq, List.mem_cons, true_or, true_and]
+      constructor
+      · rintro ⟨⟨h1, h2⟩, _⟩; exact ⟨h1, h2⟩
+      · rintro ⟨h1, h2⟩; exact ⟨⟨h1, h2⟩, fun h3 => h2 h3.2⟩
+    · simp [h]
+
+theorem sorted_indexRemove (id : Id) (ts : List Token) :
+    ∀ (ix : List (Token × List Id)), (∀ t, Sorted (postings ix t)) → ∀ t, Sorted (postings (indexRemove ix id ts) t) := by
+  induction ts with
+  | nil => intro ix h t; simpa [indexRemove] using h t
+  | cons a r ih =>
+    intro ix h t
+    simp only [indexRemove, List.foldl_cons] at ih ⊢
+    apply ih
+    intro t'
+    rw [indexRemove_step_postings]
+    by_cases h' : t' = a
+    · simp only [h', ↓reduceIte]; exact sorted_filter _ _ (h a)
+    · simp only [h', ↓reduceIte]; exact h t'
+
+/-! ## Tokens determine keys (for keys without `=`) -/
+
+/-- the keys the token argument needs: no `=` inside (true of every OSM-style key) -/
+def keyOK (k : Key) : Prop := '=' ∉ k.toList
+
+theorem pre_inj (a b x y : List Char) (ha : '=' ∉ a) (hb : '=' ∉ b)
+    (h : a ++ '=' :: x = b ++ '=' :: y) : a = b := by
+  induction a generalizing b with
+  | nil =>
+    cases b with
+    | nil => rfl
+    | cons c b' =>
+      simp only [List.nil_append, List.cons_append, List.cons.injEq] at h
+      simp only [List.mem_cons, not_or] at hb
+      exact absurd h.1 hb.1
+  | cons c a' ih =>
+    cases b with
+    | nil =>
+      simp only [List.nil_append, List.cons_append, List.cons.injEq] at h
+      simp only [List.mem_cons, not_or] at ha
+      exact absurd h.1.symm ha.1
+    | cons d b' =>
+      simp only [List.cons_append, List.cons.injEq] at h
+      simp only [List.mem_cons, not_or] at ha hb
+      rw [h.1, ih b' ha.2 hb.2 h.2]
+
+/-- `tokenForTag` on the characters of the key -/
+def tokL (l : List Char) (v : String) : Option Token :=
+  match l with
+  | '#' :: r => some (String.ofList (r ++ '=' :: v.toList))
+  | '@' :: r => some (String.ofList r)
+  | _ => none
+
+theorem tokenForTag_eq (t : Tag) : tokenForTag t = tokL t.1.toList t.2.str := rfl
+
+theorem tokL_hash (r : List Char) (v : String) : tokL ('#' :: r) v = some (String.ofList (r ++ '=' :: v.toList)) := rfl
+theorem tokL_at (r : List Char) (v : String) : tokL ('@' :: r) v = some (String.ofList r) := rfl
+theorem tokL_other (c : Char) (r : List Char) (v : String) (h1 : c ≠ '#') (h2 : c ≠ '@') : tokL (c :: r) v = none := by
+  unfold tokL
+  split
+  · rename_i heq; simp only [List.cons.injEq] at heq; exact absurd heq.1 h1
+  · rename_i heq; simp only [List.cons.injEq] at heq; exact absurd heq.1 h2
+  · rfl
+
+theorem tokL_inj {l1 l2 : List Char} {v1 v2 : String} {tok : Token}
+    (h1 : tokL l1 v1 = some tok) (h2 : tokL l2 v2 = some tok) (k1 : '=' ∉ l1) (k2 : '=' ∉ l2) : l1 = l2 := by
+  cases l1 with
+  | nil => simp [tokL] at h1
+  | cons c1 r1 =>
+    cases l2 with
+    | nil => simp [tokL] at h2
+    | cons c2 r2 =>
+      simp only [List.mem_cons, not_or] at k1 k2
+      by_cases a1 : c1 = '#'
+      · subst a1
+        rw [tokL_hash] at h1
+        by_cases a2 : c2 = '#'
+        · subst a2
+          rw [tokL_hash] at h2
+          have := String.ofList_injective (Option.some.inj (h1.trans h2.symm))
+          rw [pre_inj r1 r2 _ _ k1.2 k2.2 this]
+        · by_cases b2 : c2 = '@'
+          · subst b2
+            rw [tokL_at] at h2
+            have := String.ofList_injective (Option.some.inj (h1.trans h2.symm))
+            exact absurd (by rw [← this]; simp) k2.2
+          · rw [tokL_other c2 r2 v2 a2 b2] at h2; cases h2
+      · by_cases b1 : c1 = '@'
+        · subst b1
+          rw [tokL_at] at h1
+          by_cases a2 : c2 = '#'
+          · subst a2
+            rw [tokL_hash] at h2
+            have := String.ofList_injective (Option.some.inj (h1.trans h2.symm))
+            exact absurd (by rw [this]; simp) k1.2
+          · by_cases b2 : c2 = '@'
+            · subst b2
+              rw [tokL_at] at h2
+              have := String.ofList_injective (Option.some.inj (h1.trans h2.symm))
+              rw [this]
+            · rw [tokL_other c2 r2 v2 a2 b2] at h2; cases h2
+        · rw [tokL_other c1 r1 v1 a1 b1] at h1; cases h1
+
+/-- two tags with `=`-free keys that produce the same token have the same key -/
+theorem token_key_inj {t1 t2 : Tag} {tok : Token} (h1 : tokenForTag t1 = some tok) (h2 : tokenForTag t2 = some tok)
+    (k1 : keyOK t1.1) (k2 : keyOK t2.1) : t1.1 = t2.1 := by
+  rw [tokenForTag_eq] at h1 h2
+  have := tokL_inj h1 h2 k1 k2
+  have e1 : String.ofList t1.1.toList = t1.1 := String.ofList_toList
+  have e2 : String.ofList t2.1.toList = t2.1 := String.ofList_toList
+  rw [← e1, ← e2, this]
+
 end B6.Model.Mutable
